@@ -17,7 +17,7 @@ fn views<T: Elem + PartialEq + core::fmt::Debug>(a: usize, n: usize, i: usize, v
         let back: &[T] = c.as_slice();
         if back.as_ptr() != s.as_ptr() || back.len() != s.len() || c.len() != n || c.as_ptr() != s.as_ptr() { mon.fail(format!("case{} CSliceRef round trip changed address/length", k)); }
         let back2: &[T] = c.into();
-        if back2.as_ptr() as usize != base + a * core::mem::size_of::<T>() && n > 0 && core::mem::size_of::<T>() > 0 { mon.fail(format!("case{} CSliceRef into() moved", k)); }
+        if back2.as_ptr() as usize != base + a * core::mem::size_of::<T>() || back2.len() != n { mon.fail(format!("case{} From<CSliceRef> for &[T] changed address/length (len {})", k, n)); }
         if (0..n).any(|j| back2[j] != mem[a + j]) { mon.fail(format!("case{} contents differ", k)); }
     }
     {
